@@ -46,6 +46,7 @@ func replay(out *hx.Out, path string) {
 	defer fh.Close()
 	var ps *postSut
 	var rs *runnerSut
+	next := false
 	sc := bufio.NewScanner(fh)
 	sc.Buffer(make([]byte, 1<<20), 1<<26)
 	for sc.Scan() {
@@ -62,8 +63,15 @@ func replay(out *hx.Out, path string) {
 				rs.finish()
 			}
 			out.End()
+		case "NEXT":
+			next = ps != nil
 		case "NEW":
-			ps = newPostSut(out, w[1], int(u(w[5])))
+			if next && ps != nil {
+				ps = ps.followUp() // writes its own NEXT / NEW lines
+			} else {
+				ps = newPostSut(out, w[1], int(u(w[5])))
+			}
+			next = false
 		case "POST":
 			if ps != nil {
 				ps.post(parseAmsg(w[1:]))
